@@ -4,13 +4,11 @@ package main
 
 import (
 	"encoding/hex"
-	"fmt"
 	"os"
 	"path/filepath"
 	"runtime/debug"
-	"strings"
 
-	"verifharness/h"
+	"verifharness/tlexec"
 	"verifharness/tlmini"
 )
 
@@ -49,67 +47,6 @@ func scratchDir(name string) (string, error) {
 
 func textHex(s string) string { return hex.EncodeToString([]byte(s)) }
 
-func schemaOfArg(a string) *tlmini.Schema {
-	b, err := hex.DecodeString(a)
-	if err != nil {
-		panic("bad schema hex")
-	}
-	s, err := tlmini.Parse(string(b))
-	if err != nil {
-		panic("bad schema: " + err.Error())
-	}
-	return s
-}
+func schemaOfArg(a string) *tlmini.Schema { return tlexec.SchemaOfArg(a) }
 
-// namedTy: a name denotes a boxed type (upper-case last component) or a bare constructor.
-func namedTy(name string) *tlmini.Ty {
-	if tlmini.IsTypeName(name) {
-		return &tlmini.Ty{Kind: tlmini.KBoxed, Name: name}
-	}
-	return &tlmini.Ty{Kind: tlmini.KBare, Name: name}
-}
-
-func failf(class, f string, a ...interface{}) string {
-	return "FAIL " + class + " " + strings.ReplaceAll(fmt.Sprintf(f, a...), "\n", " ")
-}
-
-// lengthPlan returns a byte-string length generator biased to the layout boundaries.
-func lengthPlan(g *h.G) func() int {
-	return func() int {
-		switch g.Rng.Intn(12) {
-		case 0:
-			return 0
-		case 1:
-			return g.Pick(1, 2, 3, 4, 5, 7, 8)
-		case 2:
-			return g.Pick(252, 253, 254, 255, 256, 257, 258, 259, 260)
-		case 3:
-			return 200 + g.Rng.Intn(120)
-		default:
-			return g.Rng.Intn(48)
-		}
-	}
-}
-
-// modePlan enumerates all subsets of the tested flag bits in turn; every other value also carries random untested bits.
-func modePlan(g *h.G) func(used uint32) uint32 {
-	ctr := uint32(g.Rng.Intn(1 << 16))
-	return func(used uint32) uint32 {
-		ctr++
-		// spread the counter over the used bits
-		var m uint32
-		k := ctr
-		for b := uint(0); b < 32; b++ {
-			if used&(1<<b) != 0 {
-				if k&1 == 1 {
-					m |= 1 << b
-				}
-				k >>= 1
-			}
-		}
-		if g.Rng.Intn(2) == 0 {
-			m |= g.Rng.Uint32() &^ used
-		}
-		return m
-	}
-}
+func failf(class, f string, a ...interface{}) string { return tlexec.Failf(class, f, a...) }
